@@ -145,6 +145,17 @@ def run(ctx):
             lo_, hi_ = float(np.min(np.log(Ts_[:3]))) - 0.5, float(np.log(Ts_[0])) + 0.05
             if not (np.all(np.isfinite(got_[:3])) and np.all((got_[:3] > lo_) & (got_[:3] < hi_)) and np.max(np.abs(np.diff(got_[:5]))) < 1.0):
                 viol(f"{name}/extension/short-table", f"{name}: extension below a table starting at ln T = {np.log(Ts_[0]):.4f} is not finite, continuous and anchored at the first tabulated value: ln T = {got_[:3].tolist()}")
+        # the value at a wavenumber must not depend on where the requested grid starts: same table, one request starting below it and one
+        # starting inside it, compared on their common wavenumbers inside the table, at its last node and in the extension above it
+        for name, mk2 in {"FromArray": lambda: tm.FromArray(Planck15, k=ks_.copy(), T=Ts_.copy()), "FromFile": lambda: tm.FromFile(Planck15, fname=fname2)}.items():
+            common = np.concatenate([np.log(ks_[5:40:5]), [np.log(ks_[-1])], np.log(ks_[-1]) + np.array([0.3, 1.0, 2.5])])
+            below = mk2().lnt(np.concatenate([[np.log(1e-3)], common]))[1:]
+            inside = mk2().lnt(np.concatenate([[np.log(ks_[2])], common]))[1:]
+            ntab += 1
+            if not np.allclose(below, inside, rtol=0, atol=1e-9):
+                i_ = int(np.argmax(np.abs(below - inside)))
+                viol(f"{name}/value-depends-on-request-start", f"{name}: ln T at k={np.exp(common[i_]):.4g} is {below[i_]:.5f} when the requested grid starts below the table and {inside[i_]:.5f} when it starts inside it "
+                     f"(table k in [{ks_[0]:.3g}, {ks_[-1]:.3g}])", {"model": name, "k": float(np.exp(common[i_]))})
         # framework level: update() to a narrower grid vs fresh
         t1 = Transfer(transfer_model="FromArray", transfer_params={"k": kt, "T": Tt}, lnk_min=-12.0, lnk_max=6.0, dlnk=0.25)
         t1._unnormalised_lnT
